@@ -54,8 +54,8 @@ Definition ACL_STYLE_SOLARIS : N := (4)%N.
 Definition ACL_STYLE_SEPARATOR_COMMA : N := (8)%N.
 Definition ACL_STYLE_COMPACT : N := (16)%N.
 Definition nfsv4_perm_map : list (N * N * N) :=
-  [(8, 119, 119);
-   (16, 114, 114);
+  [(8, 114, 114);
+   (16, 119, 119);
    (1, 120, 120);
    (32, 112, 112);
    (2048, 100, 100);
